@@ -30,6 +30,9 @@ def gen_model(rng):
             secs.append(["Table-Form:tab1", rng.choice([[["x", "0.0 1.0 2.0 3.0 4.0"], ["y", "8.0 4.0 2.0 1.0 0.5"]], [["xy", "0.0 8.0 1.0 4.0 2.0 2.0 3.0 1.0 4.0 0.5"]]])])
         secs.append(["Pair", pair])
         secs.append(["Potential-Form", [["myform(r, a, b)", "a*exp(-r/b) + 0.125"]]])
+        # a section header with no entries of its own: it has NO options, whatever [Variables] holds (C15_code_options)
+        if rng.random() < 0.3:
+            secs.append(["Species", []])
     else:
         secs.append(["Pair", [["Al-Al", "as.buck 1000.0 0.3 32.0"], ["Xx-Al", "as.bornmayer 200.0 0.35"]]])
         secs.append(["EAM-Embed", [["Al", "as.sqrt 1.5"], ["Xx", "as.sqrt 0.75"]]])
@@ -38,6 +41,8 @@ def gen_model(rng):
         else:
             secs.append(["EAM-Density", [["Al->Al", "as.bornmayer 10.0 0.5"], ["Al->Xx", "as.bornmayer 3.0 0.5"], ["Xx->Al", "as.bornmayer 5.0 0.25"]]])
         secs.append(["Species", [["Xx.atomic_number", "120"], ["Xx.atomic_mass", "300.5"], ["Al.lattice_constant", "4.05"]]])
+        if rng.random() < 0.3:
+            secs.append(["Potential-Form", []])
     return kind, secs
 
 
@@ -136,7 +141,7 @@ def check(run):
         templated = render(tsecs, variables)
         templated_unused = render(tsecs, variables + unused)
         substituted = render([[n, [[k, [["lit", v]]] for k, v in kvs]] for n, kvs in secs], [])
-        run.case(key=templated_unused, kind="%s/%d-vars/%d-unused" % (kind, len(variables), len(unused)), sample=dict(templated_file=templated_unused) if run.evaluations < 2 else None)
+        run.case(key=templated_unused, kind="%s%s/%d-vars/%d-unused" % (kind, "+empty-section" if any(not kvs for _, kvs in secs) else "", len(variables), len(unused)), sample=dict(templated_file=templated_unused) if run.evaluations < 2 else None)
         run.traces += 1
         desc = dict(templated_file=templated_unused, substituted_file=substituted)
         # (1) resolved values
